@@ -386,6 +386,15 @@ class Interp(ExprMixin):
         if len(node.args) == 3 and not node.keywords and not getattr(self, 'comp_depth', 0) and \
                 (dotted(fn) or '') in ('functools.reduce', 'reduce') and 'reduce' not in st.env:
             return self._reduce_call(node, st)
+        if len(node.args) == 2 and not node.keywords and (dotted(fn) or '') in ('functools.reduce', 'reduce') and 'reduce' not in st.env:
+            # reduce(f, [a, b, c]) over a list whose items are known: f(f(a, b), c)
+            seq = self.eval(node.args[1], st)
+            if isinstance(seq, Tup) and 1 <= len(seq) <= 8:
+                fval = self.eval(node.args[0], st)
+                acc = seq.items[0]
+                for x in seq.items[1:]:
+                    acc = self.call_value(fval, [acc, x], {}, st, node)
+                return acc
         args = []
         for a in node.args:
             if isinstance(a, ast.Starred):
